@@ -5,6 +5,7 @@
 schema's literals.  The sampler may be wrong; the oracle judges.
 """
 import copy
+import re
 
 from hypothesis import strategies as st
 
@@ -50,6 +51,13 @@ def _type_candidates(schema):
                 cands.append(ty)
         return cands or ["null", "boolean", "integer", "number", "string", "array", "object"]
     return t if isinstance(t, list) else [t]
+
+
+def _search(pattern, name):
+    try:
+        return re.search(pattern, name) is not None
+    except re.error:
+        return False
 
 
 def _merge(parts):
@@ -180,7 +188,20 @@ def instance_of(draw, schema, depth=0):
         for name in names:
             if name in required or draw(st.integers(0, 2)) > 0:
                 sub = props[name]
-                out[name] = draw(instance_of(sub if isinstance(sub, dict) else {}, depth + 1))
+                sub = sub if isinstance(sub, dict) else {}
+                # a declared name is ALSO governed by every pattern it matches: aim at the conjunction, or at
+                # the property schema plus only some of the patterns (so that a later pattern is violated)
+                matching = [ps for pat, ps in sorted((s.get("patternProperties") or {}).items())
+                            if isinstance(ps, dict) and ps and _search(pat, name)]
+                if matching:
+                    how = draw(st.integers(0, 3))
+                    if how == 1:
+                        sub = _merge([sub] + matching)
+                    elif how == 2:
+                        sub = _merge([sub] + matching[:1])
+                    elif how == 3:
+                        sub = _merge(matching[-1:] + [sub])
+                out[name] = draw(instance_of(sub, depth + 1))
         for name in required:
             if name not in out:
                 out[name] = draw(jv.scalars)
